@@ -163,6 +163,8 @@ def run_check(prop_id, mod_name, tier, n_cases, wall_cap, level, rule, assumptio
             try:
                 if hasattr(mod, "minimise") and rp is not None:
                     rp = mod.minimise(rp, v.cls)
+                elif hasattr(mod, "classes_of") and rp is not None:
+                    rp = minimise_schedule(rp, v.cls, mod.classes_of)
             except Exception:
                 sys.stderr.write("minimiser failed (reporting unminimised):\n" + traceback.format_exc())
             path = os.path.join(rdir, "%s-%s-%d.json" % (prop_id, v.cls, core.derive(seed, prop_id, i) % 10**9))
@@ -215,6 +217,46 @@ def run_check(prop_id, mod_name, tier, n_cases, wall_cap, level, rule, assumptio
     print("%s %s: %d cases, %d simulated runs, %d distinct non-trivial, %d steps, %.1fs, violations=%d known=%s" % (
         prop_id, tier, done, agg.runs, len(distinct), agg.steps, wall, len(unknown), sorted(seen_known)))
     return rc
+
+
+def minimise_schedule(rp, cls, classes_of, max_runs=24):
+    """generic: shortest failing prefix of the explicit choice list (the tail falls back to lowest-enabled-id),
+    then select picks -> first ready; the scenario is kept."""
+    cur = json.loads(json.dumps(rp))
+    plan = cur.get("plan") or {}
+    ch = plan.get("choices") or []
+    if not ch:
+        return rp
+    runs = 0
+
+    def fails(c):
+        nonlocal runs
+        runs += 1
+        try:
+            return cls in classes_of(c)
+        except Exception:
+            return False
+    if not fails(cur):
+        return rp
+    lo, hi = 0, len(ch)
+    while lo < hi and runs < max_runs:
+        mid = (lo + hi) // 2
+        cand = json.loads(json.dumps(cur))
+        cand["plan"]["choices"] = ch[:mid]
+        if fails(cand):
+            hi = mid
+        else:
+            lo = mid + 1
+    cand = json.loads(json.dumps(cur))
+    cand["plan"]["choices"] = ch[:hi]
+    if fails(cand):
+        cur = cand
+    cand = json.loads(json.dumps(cur))
+    cand["plan"]["picks"] = []
+    if cur["plan"].get("picks") and fails(cand):
+        cur = cand
+    cur["minimised_schedule_runs"] = runs
+    return cur
 
 
 def load_known(prop_id):
